@@ -93,7 +93,8 @@ def transition_ok(ev):
 async def _check(case, ctx: Ctx) -> CaseResult:
     async with SCase(case, ctx) as sc:
         if sc.rejected:
-            return CaseResult([], False, ['rejected:' + sc.rejected])
+            return CaseResult(sc.crash_violations('C09'), False,
+                              ['rejected:' + sc.rejected])
         sim = sc.sim
         viol = []
         prev = {}      # id(itask) -> (identity, outputs)
